@@ -126,6 +126,8 @@ def one_trace(rng, case, bname, parameter=True, observed=False, via_copy=False, 
         # the bijector's argument is a calculated variable (2 * bv_root) whose root is changed before the transformation
         broot = lsl.Var(jnp.float32(1.0), name="bv_root")
         bvar = lsl.Var(lsl.Calc(lambda r: 2.0 * r, broot), name="bv")
+        if stale_bij == "node":      # ... or a bare calculator node, not wrapped in a variable
+            bvar = lsl.Calc(lambda r: 2.0 * r, broot, _name="bv_node")
         broot.value = jnp.float32(1.7)
         bval = float(np.float32(3.4))
     elif transform_bij_arg:
@@ -422,6 +424,7 @@ def all_traces(rng, reps=1):
         out.append(one_trace(rng, case, bname, stale_before=True))
     # ... and the same for a calculated argument of the bijector
     out.append(one_trace(rng, "normal_vec", "scale_class_var", stale_bij=True))
+    out.append(one_trace(rng, "normal_vec", "scale_class_var", stale_bij="node"))
     # ... and for a bijector argument that is a distributed variable, transformed itself after it was used as argument
     out.append(one_trace(rng, "normal_vec", "scale_class_var", transform_bij_arg=True))
     # a failing first call (raises after the early checks), then the proper one
